@@ -51,3 +51,87 @@ Proof.
       with ((xi - xj) * (xi - xj) + (yi - yj) * (yi - yj) + (zi - zj) * (zi - zj)) by ring.
     unfold vadd, vscale. unfold Rdiv. f_equal; [f_equal|]; ring.
 Qed.
+
+(* ---------------------------------------------------------------- grav_allpairs = C02's specified force *)
+From RV Require Import C02.Loops C02.Basic.
+
+Definition s0 : RV3 := shift 0 0 0 (0%Z, 0%Z, 0%Z).
+
+Lemma newt_pair_is_pair_step (G : R) (ps : list (Part R)) (i j : nat) (acc : list RV3) :
+  newt_pair RNum G ps i j acc = pair_step RNum (pf_basic RNum G) true (Some s0) (0 * 0) ps i j acc.
+Proof.
+  unfold newt_pair, newt_terms, pair_step, pf_basic, kick, add3, sep, norm_soft, s0, shift.
+  change (nth_d (Z0P RNum) ps i) with (nth_d (P0 RNum) ps i). change (nth_d (Z0P RNum) ps j) with (nth_d (P0 RNum) ps j).
+  destruct (nth_d (P0 RNum) ps i) as [mi xi yi zi]. destruct (nth_d (P0 RNum) ps j) as [mj xj yj zj].
+  cbn [pm px py pz nadd nsub nmul ndiv nneg nsqrt none nzero RNum].
+  replace (0 * 0 + xi - xj) with (xi - xj) by ring.
+  replace (0 * 0 + yi - yj) with (yi - yj) by ring.
+  replace (0 * 0 + zi - zj) with (zi - zj) by ring.
+  replace ((xi - xj) * (xi - xj) + (yi - yj) * (yi - yj) + (zi - zj) * (zi - zj) + 0 * 0)
+    with ((xi - xj) * (xi - xj) + (yi - yj) * (yi - yj) + (zi - zj) * (zi - zj)) by ring.
+  reflexivity.
+Qed.
+
+(* iteration space of grav_allpairs / grav_var2: all pairs i < j < n, in loop order *)
+Definition upper_pairs (n : nat) : list (nat * nat * bool) :=
+  flat_map (fun i => map (fun j => (i, j, true)) (seq (S i) (n - S i))) (seq 0 n).
+
+Lemma grav_allpairs_run (G : R) (ps : list (Part R)) :
+  grav_allpairs RNum G ps =
+  fold_left (step3 (pf_basic RNum G) (Some s0) (0 * 0) ps) (upper_pairs (length ps)) (repeat (t0 RNum) (length ps)).
+Proof.
+  unfold grav_allpairs, upper_pairs, for_range. rewrite fold_left_flat_map. rewrite Nat.sub_0_r.
+  apply fold_left_ext. intros s i _. rewrite fold_left_map. apply fold_left_ext. intros s' j _.
+  cbn [step3]. apply newt_pair_is_pair_step.
+Qed.
+
+Lemma upper_pairs_sum (G : R) (ps : list (Part R)) (k : nat) : (k < length ps)%nat ->
+  VSum (upper_pairs (length ps)) (contrib3 (pf_basic RNum G) (Some s0) (0 * 0) ps k) =
+  VSum (seq 0 (length ps)) (fun j => if negb (k =? j)%nat then newton G 0 s0 (part ps k) (part ps j) else vzero).
+Proof.
+  intros Hk. set (n := length ps) in *. unfold upper_pairs. rewrite VSum_flat_map.
+  set (A := Aterm (pf_basic RNum G) (Some s0) (0 * 0) ps). set (B := Bterm (pf_basic RNum G) (Some s0) (0 * 0) ps).
+  rewrite VSum_ext with (h := fun i =>
+    vadd (if (k =? i)%nat then VSum (seq 0 n) (fun j => if (S k <=? j)%nat && (j <? n)%nat then A k j else vzero) else vzero)
+         (if (i <? k)%nat then B i k else vzero)).
+  2:{ intros i Hi. apply in_seq in Hi. rewrite VSum_map. cbn [contrib3]. unfold contrib. cbn [andb].
+      rewrite VSum_vadd. f_equal.
+      - rewrite VSum_if. destruct (Nat.eqb_spec k i) as [->|]; [|reflexivity]. apply VSum_range. lia.
+      - rewrite (VSum_range (S i) n n) by lia.
+        rewrite VSum_ext with (h := fun j => if (k =? j)%nat then (if (i <? k)%nat then B i k else vzero) else vzero).
+        + rewrite VSum_pick. destruct (Nat.ltb_spec k n); [reflexivity|lia].
+        + intros j Hj. apply in_seq in Hj. destruct (Nat.eqb_spec k j) as [->|Hne].
+          * destruct (Nat.leb_spec (S i) j), (Nat.ltb_spec j n), (Nat.ltb_spec i j); cbn [andb]; try reflexivity; lia.
+          * now destruct (_ && _). }
+  rewrite VSum_vadd, VSum_pick. destruct (Nat.ltb_spec k n) as [_|]; [|lia].
+  rewrite <- VSum_vadd. apply VSum_ext. intros j Hj. apply in_seq in Hj.
+  unfold A, B. rewrite Aterm_basic, Bterm_basic.
+  assert (Hneg : vneg s0 = s0) by (unfold s0, shift, vneg; f_equal; [f_equal|]; ring).
+  rewrite Hneg.
+  destruct (Nat.eqb_spec k j) as [->|Hne]; cbn [negb].
+  - destruct (Nat.leb_spec (S j) j), (Nat.ltb_spec j j); cbn [andb]; try lia. apply vadd_0_l.
+  - destruct (Nat.leb_spec (S k) j), (Nat.ltb_spec j n), (Nat.ltb_spec j k); cbn [andb]; try lia;
+      rewrite ?vadd_0_l, ?vadd_0_r; reflexivity.
+Qed.
+
+(* the function differentiated by C16_var2_is_mixed_dual_part is the specified force: zero softening, open boundary,
+   all particles active, gravity_ignore_terms = 0 *)
+Theorem grav_allpairs_is_spec (G : R) (tp : bool) (ps : list (Part R)) (k : nat) : (k < length ps)%nat ->
+  nth_d vzero (grav_allpairs RNum G ps) k = acc_spec G 0 0 0 0 0%nat 0%nat 0%nat 0%nat (length ps) tp ps k.
+Proof.
+  intros Hk. rewrite grav_allpairs_run. change (t0 RNum) with vzero.
+  rewrite run_pairs_nth by (rewrite repeat_length; exact Hk).
+  rewrite nth_repeat, vadd_0_l. rewrite upper_pairs_sum by exact Hk.
+  unfold acc_spec. change (boxes 0 0 0) with [(0%Z, 0%Z, 0%Z)]. rewrite VSum_one. fold s0.
+  apply VSum_ext. intros j Hj. apply in_seq in Hj.
+  unfold src, ignored. assert (Hjn : (j <? length ps)%nat = true) by (apply Nat.ltb_lt; lia).
+  rewrite Hjn. cbn [negb andb orb]. rewrite !andb_true_r. reflexivity.
+Qed.
+
+Corollary grav_allpairs_is_grav_basic (G : R) (tp : bool) (ps : list (Part R)) (k : nat) : (k < length ps)%nat ->
+  nth_d vzero (grav_allpairs RNum G ps) k =
+  nth_d vzero (grav_basic RNum G 0 0 0 0 0 0 0 0 (length ps) tp ps) k.
+Proof.
+  intros Hk. rewrite grav_allpairs_is_spec with (tp := tp) by exact Hk. symmetry.
+  apply basic_eq_spec; [lia | lia | exact Hk].
+Qed.
